@@ -1,4 +1,5 @@
-SPECIFICATION Spec
+INIT MCInit
+NEXT MCNext
 CONSTANTS
   Themes = {"foo", "pango", "sep", "meta1", "meta2", "la"}
   ML = 2
@@ -6,10 +7,11 @@ CONSTANTS
   EML = 2
   EMW = 1
   LaML = 2
+  Extras = TRUE
   Variant = "asis"
   Gran = "word"
-  Cases <- MC_Cases
-  LaCases <- MC_LaCases
+  Cases <- MC_None
+  LaCases <- MC_None
 CHECK_DEADLOCK FALSE
 ALIAS Alias
 INVARIANT TypeOK
